@@ -91,7 +91,20 @@ def adu(framer, tid, uid, pdu):
     if framer == "rtu":
         body = bytes([uid]) + pdu
         return body + crc16(body)
+    if framer == "ascii":
+        body = bytes([uid]) + pdu
+        return b":" + (body + bytes([(-sum(body)) & 0xFF])).hex().upper().encode() + b"\r\n"
+    if framer == "binary":
+        body = bytes([uid]) + pdu
+        return b"{" + body + crc16(body) + b"}"
     raise ValueError(framer)
+
+
+def binary_clean(uid, pdu):
+    """the binary framer neither un-escapes payload nor escapes uid/crc (open C03/C06 findings): the harness only sends
+    frames whose bytes between the delimiters contain neither '{' nor '}'"""
+    inner = adu("binary", 0, uid, pdu)[1:-1]
+    return 0x7B not in inner and 0x7D not in inner
 
 
 def split_adus(framer, data):
@@ -115,8 +128,9 @@ def split_adus(framer, data):
 
 
 def framer_class(framer):
-    from pymodbus.transaction import ModbusSocketFramer, ModbusRtuFramer
-    return {"socket": ModbusSocketFramer, "rtu": ModbusRtuFramer}[framer]
+    from pymodbus.transaction import ModbusSocketFramer, ModbusRtuFramer, ModbusAsciiFramer, ModbusBinaryFramer
+    return {"socket": ModbusSocketFramer, "rtu": ModbusRtuFramer, "ascii": ModbusAsciiFramer,
+            "binary": ModbusBinaryFramer}[framer]
 
 
 # ----------------------------------------------------------------------------- recording
@@ -421,7 +435,9 @@ def run(frontend, framer, cfg, hosted, reads, direct=False):
 
 # ----------------------------------------------------------------------------- case generation (shared by C09 / C10)
 
-COMBOS = [(fe, "socket") for fe in FRONTENDS] + [("sync_serial", "rtu"), ("sync_tcp", "rtu"), ("aio_tcp", "rtu"), ("tw_tcp", "rtu")]
+COMBOS = [(fe, "socket") for fe in FRONTENDS] + [("sync_serial", "rtu"), ("sync_tcp", "rtu"), ("aio_tcp", "rtu"), ("tw_tcp", "rtu"),
+                                                  ("sync_serial", "ascii"), ("aio_tcp", "ascii"),
+                                                  ("sync_tcp", "binary"), ("tw_tcp", "binary")]
 UIDS = [0, 1, 2, 17, 247, 255]
 TIDS = [0, 1, 0x1234, 65535]
 HOSTED = [[1], [1, 2], [0], [0, 1], [1, 2, 247], [17], [247], [2, 1, 17], [255], [0, 247], [1, 255], [3, 2, 1, 0]]
@@ -479,6 +495,9 @@ def gen_scenario(r, fe, framer, multi_bias=0.6, max_reqs=6):
         else:
             uid = r.randrange(256)
         tid = r.choice(TIDS + [r.randrange(65536)])
+        while framer == "binary" and not binary_clean(uid, pdu):
+            label, pdu, lo = pdu_menu(r, framer)
+            uid = r.choice([u for u, _ in hosted] + UIDS)
         reqs.append({"label": label, "pdu": pdu.hex(), "uid": uid, "tid": tid, "listen": lo})
     mode = r.choice(["one-per-read", "pipelined", "grouped"])
     groups = []
